@@ -2,6 +2,7 @@ package props
 
 import (
 	"strconv"
+	"strings"
 	"testing"
 
 	restful "github.com/emicklei/go-restful/v3"
@@ -105,7 +106,11 @@ func checkC02(c RoutingCase) (vs []*Violation) {
 		}
 		if !v.Admits(observed(o)) {
 			b, _ := jsonMarshal(v.Set)
-			vs = append(vs, viol("", "%s headers=%v body=%d bytes: observed {%s} is not an admissible outcome; the reference model admits %s", where, req.Headers, len(req.Body), o.Key(), b))
+			sig := ""
+			if c.Router == model.JSR311 && strings.Contains(req.Path, "\n") && len(o.Ran) == 0 && o.Status == 404 {
+				sig = "D16"
+			}
+			vs = append(vs, viol(sig, "%s headers=%v body=%d bytes: observed {%s} is not an admissible outcome; the reference model admits %s", where, req.Headers, len(req.Body), o.Key(), b))
 		}
 		if v.Decisive() {
 			labels = append(labels, "decisive", "stage_"+v.Set[0].Stage)
